@@ -3,6 +3,7 @@ in-flight table, events, loop-state reads), loop life-cycle scripts, observation
 property monitors (C01, C05, C06)."""
 import asyncio
 import collections
+import functools
 import sys
 import threading
 import types
@@ -11,7 +12,8 @@ from ..core.baton import Sched, BLoop
 
 
 class Boom(Exception):
-    pass
+    def __len__(self):          # falsy when its code is even: `if exc:` and concurrent.futures' result() overlook it
+        return int(self.args[0]) % 2 if self.args and isinstance(self.args[0], int) else 1
 
 
 class Rejected(tuple):
@@ -37,6 +39,8 @@ class CEnv:
         self.S = S
         self.obs = []
         self.task2c = {}
+        self.owner_phase = {}      # caller -> True from the start of its invocation until its release decision
+        self.contains_hit = {}     # caller -> True right after a successful `key in table` test
         self.pending_md = {}       # caller -> True while between events.get(...) and the delete decision
         self.inv = []              # invocation records
         self.results = {}          # caller -> dict
@@ -63,6 +67,7 @@ ENV = None
 def _flush_md(E, c):
     if E.pending_md.pop(c, None):
         E.obs.append(f'md:{c}:0')
+        E.owner_phase.pop(c, None)
 
 
 class ILock:
@@ -155,6 +160,8 @@ class IEvents(dict):
         c = E.cur()
         if c is None:
             return dict.__getitem__(self, k)
+        if E.contains_hit.pop(c, False):
+            return dict.__getitem__(self, k)        # `if key in table: table[key]`: one protocol step, already logged
         E.S.point('events.get')
         try:
             v = dict.__getitem__(self, k)
@@ -178,9 +185,26 @@ class IEvents(dict):
         c = E.cur()
         if c is None:
             return dict.get(self, k, default)
+        if not E.owner_phase.get(c):
+            # a look-up spelled `.get(key)` instead of `[key]` + KeyError: the same protocol step
+            E.S.point('events.get')
+            hit = dict.__contains__(self, k)
+            E.obs.append(f'mg:{c}:{1 if hit else 0}')
+            return dict.get(self, k, default)
         E.S.point('events.own?')
         E.pending_md[c] = True
         return dict.get(self, k, default)
+
+    def __contains__(self, k):
+        E = self.E
+        c = E.cur()
+        if c is None or E.owner_phase.get(c):
+            return dict.__contains__(self, k)
+        E.S.point('events.get')
+        hit = dict.__contains__(self, k)
+        E.obs.append(f'mg:{c}:{1 if hit else 0}')
+        E.contains_hit[c] = hit
+        return hit
 
     def __delitem__(self, k):
         E = self.E
@@ -190,8 +214,66 @@ class IEvents(dict):
         if not E.pending_md.get(c):
             E.S.point('events.del')
         E.pending_md.pop(c, None)
+        E.owner_phase.pop(c, None)
         dict.__delitem__(self, k)
         E.obs.append(f'md:{c}:1')
+
+
+def find_tables(w):
+    """The in-flight table of a freshly made wrapper, wherever a rewrite keeps it: every empty plain `dict` reachable
+    from the wrapper through closure cells, helper closures and attributes / slots of helper objects defined in
+    aiuti.asyncio.  Returns a list of setters (call one with the replacement)."""
+    found = []
+    seen = set()
+    todo = [w]
+
+    def ours(o):
+        return getattr(type(o), '__module__', None) == 'aiuti.asyncio'
+
+    def visit(val, setter):
+        if type(val) is dict:
+            if not val and id(val) not in seen:
+                seen.add(id(val))
+                found.append(setter)
+        elif isinstance(val, (types.FunctionType, types.MethodType, functools.partial)) or ours(val):
+            todo.append(val)
+
+    while todo:
+        o = todo.pop()
+        if id(o) in seen:
+            continue
+        seen.add(id(o))
+        if isinstance(o, types.MethodType):
+            todo += [o.__self__, o.__func__]
+        elif isinstance(o, functools.partial):
+            todo += [o.func, *o.args, *o.keywords.values()]
+        elif isinstance(o, types.FunctionType):
+            if o.__globals__.get('__name__') != 'aiuti.asyncio':     # (`wraps` copies __module__ from the wrapped one)
+                continue
+            for cell in o.__closure__ or ():
+                try:
+                    val = cell.cell_contents
+                except ValueError:
+                    continue
+
+                def set_cell(new, cell=cell):
+                    cell.cell_contents = new
+                visit(val, set_cell)
+        elif ours(o):
+            names = list(getattr(o, '__dict__', {}))
+            for klass in type(o).__mro__:
+                sl = klass.__dict__.get('__slots__', ())
+                names += [sl] if isinstance(sl, str) else list(sl)
+            for n in names:
+                try:
+                    val = getattr(o, n)
+                except AttributeError:
+                    continue
+
+                def set_attr(new, o=o, n=n):
+                    setattr(o, n, new)
+                visit(val, set_attr)
+    return found
 
 
 class IEvent(asyncio.Event):
@@ -212,12 +294,13 @@ class AioProxy(types.ModuleType):
 
 
 class CLoop(BLoop):
-    """A caller's loop: the wrapper's reads of a caching loop's state are observations."""
+    """A caller's loop: the library's reads of a caching loop's state (from the wrapper or a helper of it) are
+    observations."""
 
     def is_closed(self):
         b = super().is_closed()
         E = getattr(self, 'E', None)
-        if E is not None and sys._getframe(1).f_code.co_name == '_wrapper' and E.cur() is not None:
+        if E is not None and sys._getframe(1).f_globals.get('__name__') == 'aiuti.asyncio' and E.cur() is not None:
             c = E.cur()
             E.S.point('loop.is_closed')
             b = super().is_closed()
@@ -227,7 +310,7 @@ class CLoop(BLoop):
 
     def is_running(self):
         E = getattr(self, 'E', None)
-        if E is not None and sys._getframe(1).f_code.co_name == '_wrapper' and E.cur() is not None:
+        if E is not None and sys._getframe(1).f_globals.get('__name__') == 'aiuti.asyncio' and E.cur() is not None:
             c = E.cur()
             E.S.point('loop.is_running')
             b = super().is_running()
@@ -313,6 +396,7 @@ def run_scenario(scn, seed, pct=0, choices=None, preempt=None):
         lp = asyncio.get_running_loop()
         rec = dict(key=key, caller=c, start=S.vt, end=None, out=None, loop=getattr(lp, 'li', None))
         E.inv.append(rec)
+        E.owner_phase[c] = True
         E.obs.append(f'is:{c}')
         try:
             d = scn['durs'][me % 8]
@@ -350,11 +434,12 @@ def run_scenario(scn, seed, pct=0, choices=None, preempt=None):
         A.Lock = saved[0]
         if saved_rlock is not None:
             A.RLock = saved_rlock
-    cells = dict(zip(w.__code__.co_freevars, w.__closure__))
-    if 'events' not in cells or not isinstance(cells['events'].cell_contents, dict):
+    tables = find_tables(w)
+    if len(tables) != 1:
         A.aio = saved[1]
-        raise RuntimeError('cannot attach to the in-flight table of the wrapper (closure cell `events`)')
-    cells['events'].cell_contents = IEvents(E)
+        raise RuntimeError(f'cannot attach to the in-flight table of the wrapper: {len(tables)} candidate dict(s) '
+                           f'reachable from its closure (expected exactly one, empty, plain dict)')
+    tables[0](IEvents(E))
     cid = [0]
     stop_info = {}
 
